@@ -159,6 +159,17 @@ func frameStream(tr *vk.Trace, rng *rand.Rand, thr int, st []frameStim, scn int)
 	}
 	wire.Write([]byte{0xde, 0xad, 0xbe, 0xef}) // whatever follows must stay unread
 	var recv pk.Packet                         // reused
+	type heldPk struct {
+		idx  int
+		p    *pk.Packet
+		sha0 string
+	}
+	var held []heldPk
+	defer func() {
+		for _, h := range held { // packets the caller kept while it went on unpacking
+			tr.Add(map[string]any{"k": "held", "scn": scn, "idx": h.idx, "id": int(h.p.ID), "n": len(h.p.Data), "sha": sha(h.p.Data), "sha0": h.sha0})
+		}
+	}()
 	for i := range st {
 		before := wire.Len()
 		dst := &recv
@@ -177,6 +188,9 @@ func frameStream(tr *vk.Trace, rng *rand.Rand, thr int, st []frameStim, scn int)
 			"consumed": before - wire.Len(), "panicked": pan})
 		if err != nil || pan {
 			return
+		}
+		if dst != &recv {
+			held = append(held, heldPk{i + 1, dst, sha(dst.Data)})
 		}
 	}
 }
@@ -332,6 +346,8 @@ func frameRejudge(env *vk.Env, sc frameScenario) (sig, detail string, rejected b
 	switch ev.K {
 	case "pack":
 		sig += " (emitted frame not conformant or not one frame) mode=" + ev.F.Mode
+	case "held":
+		sig += " (a packet unpacked earlier changed while later packets were unpacked)"
 	case "unpack":
 		sig += fmt.Sprintf(" (round trip broken) err=%v panicked=%v", ev.Err, ev.Pan)
 	case "bad":
